@@ -187,6 +187,21 @@ m("c10_mut_remove", "C10", r"C10\.MUT:mutator-set", "a remove_template API that 
     }
 
     fn get_template_priority(&self, name: &str) -> usize {""")
+# ---------------------------------------------------------------- C20
+m("c20_url_plus", "C20", r"C20\.URL:urlencode:set", "'+' no longer percent-encoded",
+  "tera-contrib/src/urlencode.rs", "    .add(b'+')\n", "")
+m("c20_b64_alphabet", "C20", r"C20\.B64:decode:url_safe=True", "url-safe decoder built on the standard alphabet",
+  "tera-contrib/src/base64.rs", """const URL_SAFE_DECODE: general_purpose::GeneralPurpose = general_purpose::GeneralPurpose::new(
+    &base64::alphabet::URL_SAFE,""", """const URL_SAFE_DECODE: general_purpose::GeneralPurpose = general_purpose::GeneralPurpose::new(
+    &base64::alphabet::STANDARD,""")
+m("c20_b64_arm", "C20", r"C20\.B64:encode:url_safe=True,padded=False", "unpadded url-safe arm uses the padded engine",
+  "tera-contrib/src/base64.rs", "(true, false) => general_purpose::URL_SAFE_NO_PAD.encode(val),", "(true, false) => general_purpose::URL_SAFE.encode(val),")
+m("c20_b64_padding", "C20", r"C20\.B64:decode:padding-indifferent:base64::STANDARD_DECODE", "standard decoder requires canonical padding",
+  "tera-contrib/src/base64.rs", """    &base64::alphabet::STANDARD,
+    general_purpose::GeneralPurposeConfig::new()
+        .with_decode_padding_mode(base64::engine::DecodePaddingMode::Indifferent),""", """    &base64::alphabet::STANDARD,
+    general_purpose::GeneralPurposeConfig::new()
+        .with_decode_padding_mode(base64::engine::DecodePaddingMode::RequireCanonical),""")
 
 
 def apply(src, old, new, count, name):
